@@ -743,6 +743,22 @@ def merge_measure_contents(notes, other, measure_start, measure_end=None):
     return result
 
 
+def make_pedal_stop(direction):
+    e0e = etree.Element("direction", placement="below")
+    e1e = etree.SubElement(e0e, "direction-type")
+    if isinstance(direction, score.SustainPedalDirection):
+        pedal_kwargs = {}
+        if direction.line:
+            pedal_kwargs["line"] = "yes"
+        else:
+            pedal_kwargs["sign"] = "yes"
+        etree.SubElement(e1e, "pedal", type="stop", **pedal_kwargs)
+    if direction.staff is not None and direction.staff != 1:
+        e3e = etree.SubElement(e0e, "staff")
+        e3e.text = str(direction.staff)
+    return e0e
+
+
 def do_directions(part, start, end, counter):
     result = []
 
@@ -771,6 +787,17 @@ def do_directions(part, start, end, counter):
         elem = (direction.end.t, None, e0)
         result.append(elem)
 
+    # pedals that end in this segment (they may have started in an earlier one)
+    for direction in part.iter_all(
+        score.PedalDirection,
+        start.next,
+        end.next,
+        include_subclasses=True,
+        mode="ending",
+    ):
+        if direction.end.t > direction.start.t:
+            result.append((direction.end.t, None, make_pedal_stop(direction)))
+
     tempos = part.iter_all(score.Tempo, start, end)
     directions = part.iter_all(score.Direction, start, end, include_subclasses=True)
 
@@ -793,9 +820,6 @@ def do_directions(part, start, end, counter):
             # Pedal directions create an element for start
             # and an element for ending
 
-            # Use end of the segment as ending of the pedal sign
-            ped_end = end if direction.end is None else direction.end
-
             # Create a pedal start element
             if direction.start.t >= start.t:
                 e0s = etree.Element("direction", placement="below")
@@ -815,25 +839,11 @@ def do_directions(part, start, end, counter):
                     e3s.text = str(direction.staff)
                 elem = (direction.start.t, None, e0s)
                 result.append(elem)
-            if ped_end.t <= end.t:
-                e0e = etree.Element("direction", placement="below")
-                e1e = etree.SubElement(e0e, "direction-type")
-                if isinstance(direction, score.SustainPedalDirection):
-                    pedal_kwargs = {}
-                    if direction.line:
-                        pedal_kwargs["line"] = "yes"
-                    else:
-                        pedal_kwargs["sign"] = "yes"
-                    # For Flake8 (ignore unused variable), since
-                    # etree.SubElement adds e2e to e1e
-                    e2e = etree.SubElement(  # noqa: F841
-                        e1e, "pedal", type="end", **pedal_kwargs
-                    )
-                if direction.staff is not None and direction.staff != 1:
-                    e3e = etree.SubElement(e0e, "staff")
-                    e3e.text = str(direction.staff)
-                elem = (ped_end.t, None, e0e)
-                result.append(elem)
+            if direction.end is None or direction.end.t == direction.start.t:
+                # Use end of the segment as ending of an open pedal sign
+                # (a pedal that ends later is stopped where it ends, see above)
+                ped_end = end if direction.end is None else direction.end
+                result.append((ped_end.t, None, make_pedal_stop(direction)))
         else:
             e0 = etree.Element("direction")
             e1 = etree.SubElement(e0, "direction-type")
